@@ -24,6 +24,7 @@ facets, 4444 facet-less, 1078 withdrawn, 7948 unknown) followed by an observatio
   M13b index_doc removes the docid from _not_indexed before discriminate()                                      caught
   M13c counts() looks at the first 1024 docids only                                                             caught
 """
+from lib import zbox
 from lib.core import exc_name, idset
 
 ID = "C13"
@@ -370,6 +371,11 @@ def gen_big(rng, tier, fam, facets):
 
 
 def gen(rng, tier, idx):
+    # 12% of the cases keep the index in a ZODB connection with commits / evictions / aborts in between
+    return zbox.sprinkle(rng, gen_mem(rng, tier, idx), 0.12)
+
+
+def gen_mem(rng, tier, idx):
     fam = rng.choice([32, 64])
     ids = IDS32 if fam == 32 else IDS64
     if rng.random() < 0.6:
@@ -422,7 +428,7 @@ class FacetImpl(object):
         from hypatia.facet import FacetIndex
         self.fam = BTrees.family32 if cfg.get("family") == 32 else BTrees.family64
         if cfg.get("disc") == "callable":
-            disc = lambda obj, default: getattr(obj, "x", default)  # noqa: E731
+            disc = zbox.disc_x
         else:
             disc = "x"
         self.opt = bool(cfg.get("opt", 1))
@@ -618,7 +624,13 @@ class FacetImpl(object):
 
 def impl_run(hyp, case):
     im = FacetImpl(hyp, cfgdict(case))
-    return [im.execute(c) for c in case["cmds"]]
+    if not zbox.is_zodb(case):
+        return [im.execute(c) for c in case["cmds"]]
+    box = zbox.ZBox({"idx": im.idx})
+    try:
+        return [box.txn(c, im, ("current",)) if c[0] == "txn" else im.execute(c) for c in case["cmds"]]
+    finally:
+        box.close()
 
 
 def same(a, b):
